@@ -101,7 +101,8 @@ class C17(core.Check):
                                        'neg:ambiguous-name', 'class:include-in-uncompiled-branch', 'include-line:decorated', 'include-while-muted', 'include-at-mute-depth>=2', 'files:3+', 'neg:file-label-of-includer',
                                        'neg:file-label-of-included', 'neg:file-label/include-top', 'neg:file-label/include-after-global-label',
                                        'neg:file-label/include-after-local-label', 'neg:file-label/include-after-org',
-                                       'neg:file-label/include-nested']}
+                                       'neg:file-label/include-nested', 'class:symbol-spelled-like-a-word-of-the-include-line',
+                                       'symbol-from:define', 'symbol-from:config', 'symbol-from:cmdline']}
 
     def metamorphic(self, rng, nest_p=0.5, prefer_mute=0):
         g = None
@@ -251,6 +252,37 @@ class C17(core.Check):
                                            'include-while-muted' if depth else 'include-unmuted',
                                            'include-at-mute-depth>=2' if depth >= 2 else 'include-at-mute-depth<2'})}
 
+    def symbol_name_cases(self):
+        """a preprocessor symbol spelled like a word of an include line (the file's stem, its extension, a part of its name, the
+        directive word) does not change which file is included: the line names the file between its quotes"""
+        import copy
+        base = gen_prog.layout_isa(16)
+        files = {'unit.asm': 'in_unit:\n.byte $21, unit\n', 'other.asm': '.byte $99\n', 'lib-tool.asm': '.byte $51\n'}
+        for sym, val in (('unit', 'other'), ('unit', '5'), ('asm', 'bin'), ('unit', ''), ('lib', 'lab'), ('tool', 'unit'), ('include', 'mute')):
+            for source in ('define', 'config', 'cmdline'):
+                for inc_line in ('#include "unit.asm"', '#include "lib-tool.asm"'):
+                    isa = copy.deepcopy(base)
+                    argv_x = []
+                    defn = []
+                    if source == 'define':
+                        defn = [f'#define {sym} {val}'.rstrip()]
+                    elif source == 'config':
+                        isa['predefined'] = {'symbols': [{'name': sym, 'value': val} if val != '' else {'name': sym}]}
+                    else:
+                        argv_x = ['-D', f'{sym}={val}' if val != '' else sym]
+                    fn, itext = isamod.render_isa(isa, 'json')
+                    main = ['.byte $11'] + defn + [inc_line, '.byte $31']
+                    inc_name = inc_line.split('"')[1]
+                    flat = ['.byte $11'] + defn + files[inc_name].strip().split('\n') + ['.byte $31']
+                    fl = dict(files)
+                    fl.update({fn: itext, 'p.asm': '\n'.join(main) + '\n'})
+                    yield {'runs': [{'files': fl, 'argv': ['compile', '-c', fn, 'p.asm', '-o', 'out.bin'] + argv_x,
+                                     'probes': ['steps', 'files'], 'step_limit': 500000},
+                                    {'files': {fn: itext, 'p.asm': '\n'.join(flat) + '\n'},
+                                     'argv': ['compile', '-c', fn, 'p.asm', '-o', 'out.bin'] + argv_x, 'probes': ['steps'], 'step_limit': 500000}],
+                           'meta': {'class': 'metamorphic', 'image': None, 'kind': 'ACCEPT', 'includes': [inc_name.split('/')[-1]]},
+                           'tags': ['class:symbol-spelled-like-a-word-of-the-include-line', 'symbol-from:' + source, 'dirs:1', 'nesting:1']}
+
     def dead_include_cases(self):
         """an #include inside a branch that is not compiled has no effect at all: it may name a file that was already
         included, that does not exist, or that is ambiguous"""
@@ -355,6 +387,7 @@ class C17(core.Check):
                 yield c
         yield from self.mute_depth_cases()
         yield from self.dead_include_cases()
+        yield from self.symbol_name_cases()
         negs = ['included-twice', 'transitively-twice', 'self-include', 'missing-file', 'ambiguous-name']
         for i in range(25 if tier == 'quick' else 100):
             rng = core.rng_for(0, self.pid, 'neg', i)
